@@ -23,7 +23,7 @@ RULE = ('behaviour cases = (N, NW, k) with N in 8..64 exhaustive x NW in {1,1.5,
         '(N, k, NW) triples incl. hostile ones (k = N, k > 2NW, NW near N/2, repeated calls); non-trivial when '
         'k >= 2; distinct = distinct descriptor (a batch counts once)')
 ASSUMPTIONS = ['sinc kernel and scipy.linalg.eigh_tridiagonal are the reference',
-               'NW crosses the ctypes boundary as c_float: eigenvector comparison at 1e-5',
+               'NW crosses the ctypes boundary as c_float (the reference uses float32(NW)); eigenvector / symmetry tolerance 1e-9 + 1e-4 (N/4096)^3, ~20x the accuracy envelope measured on the unchanged tree',
                'a clean sanitizer/valgrind run means no report on these calls, not memory safety',
                'k > 2NW and k = N are driven only in the memory lanes (the statement bounds k <= 2NW)']
 REQUIRED_ANCHORS = ('dpss',)
@@ -80,19 +80,22 @@ def post_dpss(N, NW, k, result):
         A = sinc_kernel(N, NWf / N)
         q = np.einsum('ik,ij,jk->k', tapers, A, tapers) / np.einsum('ik,ik->k', tapers, tapers)
         c.compare('dpss:concentration-is-energy-fraction-in-band', lam, q, 1e-6, feats, scale=1.0, detail=det)
+    # accuracy of the C solver measured on the unchanged tree grows like N^3 (2e-11 at N=64, 5e-6 at N=4096,
+    # worst at NW=1); the bound below keeps ~20x head-room over that envelope
+    tolN = 1e-9 + 1e-4 * (N / 4096.0) ** 3
     V = tridiag_vectors(N, W32, kk)
     sgn = np.sign(np.sum(V * tapers, axis=0))
     sgn[sgn == 0] = 1
-    c.compare('dpss:columns-are-leading-eigenvectors(independent-solver)', tapers, V * sgn, 1e-4, feats,
+    c.compare('dpss:columns-are-leading-eigenvectors(independent-solver)', tapers, V * sgn, tolN, feats,
               scale=float(np.max(np.abs(V))), detail=det)
     for i in range(kk):
         v = tapers[:, i]
         m = float(np.max(np.abs(v)))
         if i % 2 == 0:
-            c.compare('dpss:even-index-symmetric', v, v[::-1], 1e-4, feats, scale=m, detail=dict(det, index=i))
+            c.compare('dpss:even-index-symmetric', v, v[::-1], 2 * tolN, feats, scale=m, detail=dict(det, index=i))
             c.require('dpss:even-index-positive-sum', bool(np.sum(v) > 0), dict(det, index=i, sum=float(np.sum(v))), feats)
         else:
-            c.compare('dpss:odd-index-antisymmetric', v, -v[::-1], 1e-4, feats, scale=m, detail=dict(det, index=i))
+            c.compare('dpss:odd-index-antisymmetric', v, -v[::-1], 2 * tolN, feats, scale=m, detail=dict(det, index=i))
             first = v[np.argmax(np.abs(v) > 1e-4 * m)]
             c.require('dpss:odd-index-starts-with-positive-lobe', bool(first > 0), dict(det, index=i, first=float(first)), feats)
     if k is None:
@@ -201,7 +204,7 @@ def run_case(c, d):
         fail_at = tri[len(r['rows'])] if len(r['rows']) < len(tri) else None
         c.require('%s:no-sanitizer-report' % lane, clean,
                   {'returncode': r['returncode'], 'reports': nrep, 'first_unfinished_triple': fail_at,
-                   'report': r['report'][-1500:]}, {'lane': lane})
+                   'report': r['report'][:1800]}, {'lane': lane})
         worst = 0.0
         for ra, rb in zip(r['rows'], base['rows']):
             for a, b in zip(ra, rb):
@@ -224,7 +227,7 @@ def run_case(c, d):
         fail_at = d['cases'][len(r['results'])] if len(r['results']) < len(d['cases']) else None
         c.require('asan-inproc:no-sanitizer-report', clean,
                   {'returncode': r['returncode'], 'reports': nrep, 'first_unfinished_case': fail_at,
-                   'report': r['report'][-1500:]}, {'lane': lane})
+                   'report': r['report'][:1800]}, {'lane': lane})
         # differential against the plain build in this (uninstrumented) process
         import spectrum.mtm as mtm
         worst = 0.0
